@@ -14,7 +14,6 @@ open XzVerif.MtDec
 -- bridge: the protocol constants of the source (regenerated into Gen/C07.lean on every run) are the model's
 -- ---------------------------------------------------------------------------------------------
 
-theorem gen_chunk_size : Gen.C07.chunkSize = MtDec.chunkSize := by decide
 theorem gen_bufs_limit : Gen.C07.bufsLimitFactor = MtDec.bufsLimitFactor := by decide
 theorem gen_ret_codes : Gen.C07.retOK = OK ∧ Gen.C07.retStreamEnd = END ∧ Gen.C07.retDataError = DATA_ERROR ∧
     Gen.C07.retProgError = PROG_ERROR ∧ Gen.C07.retTimedOut = TIMED_OUT ∧ Gen.C07.retMemlimitError = 6 := by decide
